@@ -30,6 +30,26 @@ def emit(**kw):
 
 objs = {}
 emit(start=True, pid=ME, sems=sems())
+if prog.get("threads_first"):
+    # the very first tracked operations of the process come from several threads at once (the tracker is being launched)
+    import threading
+    n = prog["threads_first"]
+    bar = threading.Barrier(n)
+    made = {}
+
+    def mk(j):
+        bar.wait(10)
+        made[j] = ctx.Lock()
+
+    before = sems()
+    ths = [threading.Thread(target=mk, args=(j,)) for j in range(n)]
+    [t.start() for t in ths]
+    [t.join(30) for t in ths]
+    time.sleep(0.3)
+    names = [s for s in sems() if s not in before]
+    for j, o in made.items():
+        objs[f"t{j}"] = ("Lock", o, [f"/dev/shm/sem.{o._semlock.name[1:]}"])
+    emit(threads_first=n, created=len(made), names=len(names))
 for k, op in enumerate(prog["ops"]):
     name = op[0]
     if name == "new":
@@ -72,6 +92,7 @@ for k, op in enumerate(prog["ops"]):
                 gone.append(sname)
             except FileNotFoundError:
                 pass
+        prog["unlinked_behind"] = True
         emit(k=k, op=op, unlinked=gone)
     elif name == "send":
         if op[1] not in objs or objs[op[1]][0] == "executor":
@@ -95,7 +116,10 @@ for k, op in enumerate(prog["ops"]):
     elif name == "pause_for_kill":
         emit(k=k, op=op, at=k, sems=sems(), pid=ME)
         time.sleep(300)
-emit(live=sorted(objs), sems=sems(), ending=prog["ending"])
+time.sleep(0.2)
+missing_live = [s for key, (kind, o, names) in objs.items() if kind != "executor" and not prog.get("unlinked_behind")
+                for s in names if not os.path.exists(s)]
+emit(live=sorted(objs), sems=sems(), ending=prog["ending"], missing_live=missing_live)
 end = prog["ending"]
 if end == "release_all_then_exit":
     for key in list(objs):
